@@ -1,7 +1,8 @@
 import CaoProofs.Props.C04
 import CaoProofs.Props.C10b
 import CaoProofs.Lemmas.CaptureStatic
-import CaoProofs.Lemmas.CaptureRun
+import CaoProofs.Lemmas.CaptureExec
+import CaoProofs.Lemmas.CaptureCheck
 /-!
 # C04c — the capture assertions of `RegisterUpvalue` in runs of COMPILED programs
 
@@ -18,7 +19,9 @@ closure in the running frame: `panic "closure not found for capture"` (K9, a con
 `run_function` now pops the call stack back to its entry depth however the callee ended, `f`
 continues under its own frame, the capture succeeds and the run ends normally
 (`abort_in_callback_no_longer_panics`).  The statement "compiled programs never reach the capture
-assertions" (`compiled_run_no_capture_panic_Full`) is therefore no longer refuted; it is open.
+assertions" (`compiled_run_no_capture_panic_Full`) is therefore no longer refuted; it is proved for every
+program that passes the executable checker `capStaticB` (§3, `run_no_capture_panic`), which this program
+does (`ac_capStatic`); for ALL compiled programs it is open (§4).
 
 The program is compiled, accepted by the checker (`Bytecode.WF`), satisfies all hypotheses of
 `C10b.compile_wf`, and is run from a fresh machine.
@@ -163,19 +166,6 @@ theorem abort_in_callback_no_longer_panics :
     exact ⟨rfl, h.1, h.2⟩
   · cases h
 
-/-- the statement of stage 3 without a hypothesis on `Exit` — OPEN: it was refuted by
-`abortInCallback` before the repair of `run_function`
-(`not_compiled_run_no_capture_panic_Full`, removed); that witness now runs without error
-(`abort_in_callback_no_longer_panics`), and no other counterexample is known.  NOT proved: it needs
-`st_step_Full` (see §3). -/
-def compiled_run_no_capture_panic_Full : Prop :=
-  ∀ (m std : Module) (limit : Nat) (p : Program), compile m std limit = .ok p →
-    p.bytecode.size < 2 ^ 31 → p.data.size < 2 ^ 32 → NoEntryRef m std limit p →
-    ClosureHandlesDistinct m std limit p →
-    ∀ (n : Nat) (c : Config) (e : RunErr), (run (Prog.ofProgram p) n (VmState.fresh c)).2 = some e →
-      rootCause e.kind ≠ .panic "closure not found for capture" ∧
-      rootCause e.kind ≠ .panic "upvalue index out of bounds"
-
 
 /-! ## 2. Stage 1: static facts about compiled programs -/
 
@@ -224,37 +214,174 @@ theorem compile_nonlocal_in_region {m std : Module} {limit : Nat} {p : Program}
     (h : compile m std limit = .ok p) (hd : ClosureHandlesDistinct m std limit p) : UpvaluesChecked p :=
   compile_upvalues_checked h hd
 
-/-! ## 3. Stages 2 and 3: what is proved, what is missing
+/-! ## 3. Stages A–C: programs with the static facts `CapStatic` never reach the capture assertions
 
-`Lemmas/CaptureRun.lean` contains the dynamic half as far as it is proved:
+`Lemmas/CaptureRun.lean` … `Lemmas/CaptureExec.lean` contain the dynamic proof:
 
-* the Hoare triple `St` over whole machine states with an error postcondition and its automation
-  `st_auto`;
-* the invariant `InvX`: every `fn` object enters callee code of level 0 (`FnSafe`), every closure object
-  is `Complete` (its handle enters callee code whose level is at most its number of upvalues), the
-  obligations `(closure of a frame, level it continues at)` hold and are rooted in the call stack;
-  one closure — under construction, on top of the stack — may be exempt;
-* `Harmless`: how the heap may evolve without disturbing the invariant (collections keep the closures of
-  the call stack; no `fn`/closure object appears or changes), proved for the allocator
-  (`harmless_allocPure`), `newObject`, tables, upvalue objects and every primitive (`hpres_*`);
-* `st_callNativeBody`, `st_callNative`: every host function keeps the invariant if the callback does;
-* `CapStatic`: the static facts the induction over `step`/`exec` needs (levels are kept by fall-through
-  and jumps, non-local indices are below the level, closure/function handles enter callee code of the
-  right level, no `Exit` in callee code), and `StepQ`, the outcome of one instruction.
+* the invariant `InvX`: every `fn` object enters code of level 0 (`FnSafe`), every closure object is
+  `Complete` (its handle enters code whose level is at most its number of upvalues), the obligations
+  `(closure of a frame, level it continues at)` hold and are rooted in the call stack; one closure — under
+  construction, on top of the stack — may be exempt;
+* **stage A** `Cao.Vm.st_step` (one lemma per opcode, `st_op_*`; `st_regUp`, `st_copyLast_tail` for the
+  instructions behind a `Closure`): one instruction keeps the invariant and raises only `NoCap` errors;
+* **stage B** `Cao.Vm.exec_capture` (induction on the fuel, both tasks of `exec`),
+  `Cao.Vm.run_no_capture_panic_of`, `Cao.Vm.run_keeps_inv`;
+* **stage C** `capStaticB` (`Lemmas/CapCheckDef.lean`, model imports only, so that it can be linked into
+  the differential driver): an executable checker of `CapStatic`; `capStaticB_sound`
+  (`Lemmas/CaptureCheck.lean`).
 
-**Missing** (`st_step_Full`): the pass over the 37 branches of `step` (the automation times out on the
-whole function), the two tail instructions, and the fuel induction (`exec_cfi` skeleton).
-Before the repair of `run_function`, `abortInCallback` showed that `CapStatic.noExit` (no `abort` in a
-function or closure body that a host function may call back) was necessary.  Now that `run_function`
-restores the call stack whatever the callee did (`C18.run_function_frames`,
-`NoPanicExec.CallSpec`), the hypothesis is probably no longer needed; it is kept because the
-invariant framework of `Lemmas/CaptureRun.lean` was built with it. -/
+`CapStatic` no longer has the field `noExit` (and no parameter `Cal`): `run_function` pops the call stack
+back to its entry depth, an `Exit` in a callee just ends the callee.  Two fields were added:
+`lastLvl` (the final `Exit`, the return address `run_function` gives its callee, has level 0) and
+`entryLvl` (`lvl 0 = 0`).  `StepQ.ret`/`st_step` need the obligations below the running frame to be rooted
+below it (`RootedIn W0 fs0`): the statement `st_step_Full` of the previous version was not provable
+without it (an obligation rooted only in the frame that returns would be lost). -/
 
-/-- stage 3 as it can hold: for a program with the static facts `CapStatic` (region-respecting control
-flow, non-colliding handles, no `Exit` in callee code) — NOT proved -/
-def run_no_capture_panic_Full : Prop :=
-  ∀ (p : Prog) (G : Nat → Prop) (lvl cnt : Nat → Nat) (Cal : Nat → Prop), Cfi p G → G 0 → lvl 0 = 0 →
-    CapStatic p G lvl cnt Cal → ∀ (n : Nat) (c : Config) (e : RunErr),
-      (run p n (VmState.fresh c)).2 = some e → NoCap e.kind
+/-- **stage B, for a fresh machine** -/
+theorem run_no_capture_panic_fresh {p : Prog} {G : Nat → Prop} {lvl cnt : Nat → Nat}
+    (hs : CapStatic p G lvl cnt) (hc : Cfi p G) (h0 : G 0) (n : Nat) (c : Config) (e : RunErr)
+    (h : (run p n (VmState.fresh c)).2 = some e) : NoCap e.kind :=
+  run_no_capture_panic_of hs hc h0 n _ (invX_fresh c) (fun f hf => by cases hf) e h
+
+/-- **stage B, for a cleared machine** -/
+theorem run_no_capture_panic_clear {p : Prog} {G : Nat → Prop} {lvl cnt : Nat → Nat}
+    (hs : CapStatic p G lvl cnt) (hc : Cfi p G) (h0 : G 0) (n : Nat) (s : VmState) (e : RunErr)
+    (h : (run p n (clear s)).2 = some e) : NoCap e.kind :=
+  run_no_capture_panic_of hs hc h0 n _ (invX_clear s) (fun f hf => by cases hf) e h
+
+/-- **`run_no_capture_panic`** (stages B + C): a well-formed program that passes the executable checker
+`capStaticB`, run with any budget from a fresh machine, never reports an error whose root cause is one of
+the two capture assertions of `RegisterUpvalue` -/
+theorem run_no_capture_panic {p : Program} (hwf : Bytecode.WF p) (hcs : capStaticB p = true) (n : Nat)
+    (c : Config) (e : RunErr) (h : (run (Prog.ofProgram p) n (VmState.fresh c)).2 = some e) :
+    rootCause e.kind ≠ .panic "closure not found for capture" ∧
+    rootCause e.kind ≠ .panic "upvalue index out of bounds" :=
+  run_no_capture_panic_fresh (capStaticB_sound_at hcs) (C04.wf_cfi hwf).1 (C04.wf_cfi hwf).2 n c e h
+
+/-- the same from a cleared machine -/
+theorem run_no_capture_panic_cleared {p : Program} (hwf : Bytecode.WF p) (hcs : capStaticB p = true) (n : Nat)
+    (s : VmState) (e : RunErr) (h : (run (Prog.ofProgram p) n (clear s)).2 = some e) :
+    rootCause e.kind ≠ .panic "closure not found for capture" ∧
+    rootCause e.kind ≠ .panic "upvalue index out of bounds" :=
+  run_no_capture_panic_clear (capStaticB_sound_at hcs) (C04.wf_cfi hwf).1 (C04.wf_cfi hwf).2 n s e h
+
+/-- **combined with `C04.run_no_panic_partial`**: for a well-formed program that passes `capStaticB`, run
+from a fresh machine, the only panic that can be the root cause of a reported error is the model's own
+fuel, `"gas exhausted"`, and only below a host function (the reported error itself is not that panic) -/
+theorem run_only_gas_panic {p : Program} (hwf : Bytecode.WF p) (hcs : capStaticB p = true) (n : Nat)
+    (c : Config) (e : RunErr) (h : (run (Prog.ofProgram p) n (VmState.fresh c)).2 = some e) :
+    (∀ w, rootCause e.kind = .panic w → w = "gas exhausted") ∧ e.kind ≠ .panic "gas exhausted" := by
+  have h1 := C04.run_no_panic_partial hwf n (VmState.fresh c) (C04.goodFrames_fresh p c) e h
+  have h2 := run_no_capture_panic hwf hcs n c e h
+  refine ⟨fun w hw => ?_, h1.2⟩
+  have hm := h1.1 w hw
+  simp only [C04.residualPanics, List.mem_cons, List.mem_nil_iff, or_false] at hm
+  rcases hm with hm | hm | hm
+  · exact hm
+  · exact absurd (hm ▸ hw) h2.1
+  · exact absurd (hm ▸ hw) h2.2
+
+/-- **a reused machine**: after a run from a fresh machine that ended without an error, a second run (any
+budget) of the same program on the same machine — heap, globals and value stack as the first run left
+them — reports no capture assertion either (`Cao.Vm.run_keeps_inv`: an error-free run re-establishes
+the invariant) -/
+theorem run_twice_no_capture_panic {p : Program} (hwf : Bytecode.WF p) (hcs : capStaticB p = true)
+    (n m : Nat) (c : Config) (hok : (run (Prog.ofProgram p) n (VmState.fresh c)).2 = none) (e : RunErr)
+    (h : (run (Prog.ofProgram p) m (run (Prog.ofProgram p) n (VmState.fresh c)).1).2 = some e) :
+    rootCause e.kind ≠ .panic "closure not found for capture" ∧
+    rootCause e.kind ≠ .panic "upvalue index out of bounds" := by
+  have hs := capStaticB_sound_at hcs
+  have hc := (C04.wf_cfi hwf).1
+  have h0 := (C04.wf_cfi hwf).2
+  have hfr1 : (run (Prog.ofProgram p) n (VmState.fresh c)).1.frames = [] :=
+    C17.run_frames_nil _ n _ rfl
+  have hK1 := run_keeps_inv hs hc h0 n (VmState.fresh c) rfl (invX_fresh c) hok
+  refine run_no_capture_panic_of hs hc h0 m _ ?_ ?_ e h
+  · rw [hfr1]; exact hK1
+  · rw [hfr1]; intro f hf; cases hf
+
+/-! ### the checker on examples -/
+
+/-- the checker on the result of a compilation -/
+def okCap (r : Except CErr Program) : Bool :=
+  match r with
+  | .ok p => capStaticB p
+  | .error _ => false
+
+/-- the two-level closure of `Props/C10b.lean` passes the checker -/
+theorem twoLevel_capStatic : okCap (compile twoLevel stdE) = true := by
+  rw [compile_twin]
+  decide +kernel
+
+/-- so does `abortInCallback` -/
+theorem ac_capStatic : okCap (compile abortInCallback stdE) = true := by
+  rw [ac_compile]
+  decide +kernel
+
+/-- the well-formed program of `Props/C04.lean` that jumps into a closure body (and panics) is rejected -/
+example : capStaticB C04.jumpIntoClosure = false := by decide +kernel
+
+/-- non-vacuity, end to end: no run of the compiled `abortInCallback`, with any budget and configuration,
+reports a capture assertion -/
+theorem abortInCallback_no_capture_panic : ∃ p, compile abortInCallback stdE = .ok p ∧
+    ∀ (n : Nat) (c : Config) (e : RunErr), (run (Prog.ofProgram p) n (VmState.fresh c)).2 = some e →
+      rootCause e.kind ≠ .panic "closure not found for capture" ∧
+      rootCause e.kind ≠ .panic "upvalue index out of bounds" := by
+  obtain ⟨p, hp, _, _, _, _, hwf⟩ := ac_hyps
+  have h := ac_capStatic
+  rw [hp] at h
+  exact ⟨p, hp, fun n c e he => run_no_capture_panic hwf h n c e he⟩
+
+/-! ## 4. Stage D: all compiled programs — OPEN
+
+For compiled programs, `CaptureStatic.lean`/§2 prove the fields `reg` (from `compile_nonlocal_in_region`),
+`closLabel` (`compile_closure_label` + the count of the region) and `pairs` (`compile_tail_structure`) of
+`CapStatic` in the form of facts about the level derivation `UpT`.  NOT proved for compiled programs:
+`seq`, `jump` (jumps, fall-through and call returns respect closure regions — the level derivation `UpT`
+says nothing about jump targets), `fnLabel` (function labels lie outside of every closure region),
+`lastLvl`, `entryLvl`, and the identification of the level function of `UpT` with `lvlOf (regionsOf p)`.
+The differential harness can decide `capStaticB` on the bytes of the real compiler instead
+(`Lemmas/CapCheckDef.lean` imports only the models).  Evaluated (`#eval`, not part of the build): the closure
+`K = closure [a] { z = a; closure { x; z; closure { x; z } }; x }` placed in each of 33 one-hole card
+contexts (operands, conditions and bodies of `if`/`ifElse`/`while`/`repeat`/`forEach`, call arguments,
+callee position, arrays, composite cards, closure bodies, `return`) and in all 33 × 33 compositions of two
+contexts: 1122 compiled programs, all well-formed, all accepted; also with the standard library linked.
+
+Plan for the missing compiler pass (per-card Hoare triple in the style of `WfUpvalues.Up`, the jump at the
+head of a block is back-patched as in `UR.patch`): for the code `[a, b)` a card emits, every jump in it has
+its target in `[a, b]`, at a boundary between the blocks of the card; then `lvlOf_congr` / `lvlOf_outside`
+(`Lemmas/CaptureCheck.lean`) reduce the fields `seq`, `jump`, `fnLabel`, `lastLvl`, `entryLvl` of the checker
+to "both ends of a control-flow edge lie in the same closure regions". -/
+
+/-- the statement for all compiled programs — OPEN (no counterexample is known; it follows from
+`run_no_capture_panic` for every compiled program that passes `capStaticB`) -/
+def compiled_run_no_capture_panic_Full : Prop :=
+  ∀ (m std : Module) (limit : Nat) (p : Program), compile m std limit = .ok p →
+    p.bytecode.size < 2 ^ 31 → p.data.size < 2 ^ 32 → NoEntryRef m std limit p →
+    ClosureHandlesDistinct m std limit p →
+    ∀ (n : Nat) (c : Config) (e : RunErr), (run (Prog.ofProgram p) n (VmState.fresh c)).2 = some e →
+      rootCause e.kind ≠ .panic "closure not found for capture" ∧
+      rootCause e.kind ≠ .panic "upvalue index out of bounds"
+
+/-- **compiled programs that pass the checker**: under the hypotheses of `C10b.compile_wf`, a compiled
+program accepted by `capStaticB`, run from a fresh machine: the only panic that can be the root cause of a
+reported error is `"gas exhausted"` below a host function -/
+theorem compiled_run_only_gas_panic {m std : Module} {limit : Nat} {p : Program}
+    (hp : compile m std limit = .ok p) (h1 : p.bytecode.size < 2 ^ 31) (h2 : p.data.size < 2 ^ 32)
+    (h3 : NoEntryRef m std limit p) (h4 : ClosureHandlesDistinct m std limit p) (hcs : capStaticB p = true)
+    (n : Nat) (c : Config) (e : RunErr) (h : (run (Prog.ofProgram p) n (VmState.fresh c)).2 = some e) :
+    (∀ w, rootCause e.kind = .panic w → w = "gas exhausted") ∧ e.kind ≠ .panic "gas exhausted" :=
+  run_only_gas_panic (compile_wf hp h1 h2 h3 h4) hcs n c e h
+
+/-- what is missing for it, exactly: every compiled program passes the checker -/
+def compiled_capStatic_Full : Prop :=
+  ∀ (m std : Module) (limit : Nat) (p : Program), compile m std limit = .ok p →
+    p.bytecode.size < 2 ^ 31 → p.data.size < 2 ^ 32 → NoEntryRef m std limit p →
+    ClosureHandlesDistinct m std limit p → capStaticB p = true
+
+theorem compiled_run_no_capture_panic_of_capStatic (h : compiled_capStatic_Full) :
+    compiled_run_no_capture_panic_Full :=
+  fun m std limit p hp h1 h2 h3 h4 n c e he =>
+    run_no_capture_panic (compile_wf hp h1 h2 h3 h4) (h m std limit p hp h1 h2 h3 h4) n c e he
 
 end Cao.C04c
